@@ -664,7 +664,24 @@ pub fn run(ctx: &Ctx) -> i32 {
             res.faults.add("key_redraw", st.faults.key_draws);
             res.faults.add("deadline_expired_mid_search", st.searches.iter().filter(|s| s.deadline_passed_at.is_some()).count() as u64);
             res.probes.add("commands_sent", rep.exchanges.len() as u64);
-            res.probes.add("games_without_ucinewgame_between", 0);
+            // a position command that does not continue the previous one (another game) with
+            // no ucinewgame in between: the tables still hold the other game
+            let mut prev: Option<&str> = None;
+            let mut n = 0u64;
+            for l in &sc.lines {
+                let l = l.trim();
+                if l == "ucinewgame" {
+                    prev = None;
+                } else if l.starts_with("position") {
+                    if let Some(p) = prev {
+                        if !l.starts_with(p) {
+                            n += 1;
+                        }
+                    }
+                    prev = Some(l);
+                }
+            }
+            res.probes.add("games_without_ucinewgame_between", n);
         }
         res.violations = violations_of(&sc, &rep, &j, i, seed);
         if i < 3 {
